@@ -47,7 +47,8 @@ Definition all_flags : list string :=
   ++ ["repo_ignore_not_loaded[pyproject]"; "repo_ignore_not_loaded[--config]";
       "global_config_option_ignored"; "dry_config_option_merges_section_only";
       "pyproject_unparsable_swallowed"; "wrong_type_swallowed";
-      "language_block_error_retried_without_language"; "invalid_top_level_value_shadowed_by_language_block"].
+      "language_block_error_retried_without_language"; "invalid_top_level_value_shadowed_by_language_block";
+      "thailint_json_is_not_a_root_marker"].
 
 (* ------------------------------------------------------------------ dictionaries *)
 Fixpoint get (k : string) (d : dict) : option val :=
@@ -89,7 +90,10 @@ Definition normalize_top (d : dict) : dict := fold_left norm_step d [].
 Inductive cfile := Absent | Unparsable | Doc (d : dict).
 Inductive dashpos := PosCmd | PosGlobal.          (* `thailint CMD --config F` / `thailint --config F CMD` *)
 Record dashcfg := { d_pos : dashpos; d_suffix : string; d_file : cfile }.
-Record project := { p_yaml : cfile; p_json : cfile; p_pyproject : cfile; p_dash : option dashcfg }.
+Record project := {
+  p_yaml : cfile; p_json : cfile; p_pyproject : cfile; p_dash : option dashcfg;
+  p_ignore_file : list string;   (* patterns of .thailintignore in the project directory ([] = absent or empty) *)
+  p_subdir : bool }.             (* the linted file lies in a sub-directory; the command runs from the project directory *)
 
 Record case := {
   c_proj : project;
@@ -131,6 +135,22 @@ Definition discovered (q : quirks) (p : project) : lres :=
     end
   end.
 
+(* Project-root detection (get_or_detect_project_root): with the root-group --config the root is the directory of that file;
+   otherwise the nearest ancestor of the linted file holding one of root_markers, else the file's own directory.
+   The project directory is an ancestor; nothing above it carries a marker.  When the root is not found, nothing
+   in the project directory is read. *)
+Definition has_marker (p : project) : bool :=
+  existsb (fun n => match file_of p n with Absent => false | _ => true end) root_markers.
+Definition root_found (q : quirks) (p : project) : bool :=
+  if has q "thailint_json_is_not_a_root_marker"
+  then negb (p_subdir p) || has_marker p
+       || match p_dash p with Some d => match d_pos d with PosGlobal => true | PosCmd => false end | None => false end
+  else true.
+Definition eff_proj (q : quirks) (c : case) : project :=
+  if root_found q (c_proj c) then c_proj c
+  else {| p_yaml := Absent; p_json := Absent; p_pyproject := Absent; p_dash := p_dash (c_proj c);
+          p_ignore_file := []; p_subdir := p_subdir (c_proj c) |}.
+
 Definition dash_active (q : quirks) (c : case) : option dashcfg :=
   match p_dash (c_proj c) with
   | Some d =>
@@ -142,9 +162,23 @@ Definition dash_active (q : quirks) (c : case) : option dashcfg :=
   | None => None
   end.
 
+(* a root-group --config that is not used as linter configuration is still checked: a missing file ends a linter
+   command, an unparsable one or one with an unsupported suffix fails in the group callback *)
+Definition ignored_dash_error (q : quirks) (c : case) : bool :=
+  match p_dash (c_proj c), dash_active q c with
+  | Some d, None =>
+    match d_file d with
+    | Absent => global_config_missing_exits
+    | Unparsable => global_config_invalid_exits
+    | Doc _ => global_config_invalid_exits && negb (smem (d_suffix d) valid_suffixes)
+    end
+  | _, _ => false
+  end.
+
 (* setup_base_orchestrator: discovery first, then --config replaces the configuration *)
 Definition selected (q : quirks) (c : case) : lres :=
-  match discovered q (c_proj c) with
+  if ignored_dash_error q c then LErr else
+  match discovered q (eff_proj q c) with
   | LErr => LErr
   | LDoc k raw =>
     match dash_active q c with
@@ -174,7 +208,7 @@ Definition dry_merge (q : quirks) (c : case) : bool :=
 
 Definition loaded (q : quirks) (c : case) : option dict :=
   if dry_merge q c then
-    match discovered q (c_proj c), p_dash (c_proj c) with
+    match discovered q (eff_proj q c), p_dash (c_proj c) with
     | LDoc k raw, Some d =>
       match d_file d with
       | Doc r => Some match get dry_dash_config_key r with
@@ -196,14 +230,20 @@ Fixpoint code_patterns_from (p : project) (names : list string) : list string :=
   | [] => []
   | n :: r => match file_of p n with Doc d => pats d | Unparsable => [] | Absent => code_patterns_from p r end
   end.
-Definition code_patterns (p : project) : list string := code_patterns_from p repo_ignore_files.
+(* .thailintignore is read first and the first existing configuration file of the remaining names adds its list *)
+Definition code_patterns (p : project) : list string :=
+  match repo_ignore_files with
+  | [] => []
+  | _ :: rest => p_ignore_file p ++ code_patterns_from p rest
+  end.
 
 Definition repo_patterns (q : quirks) (c : case) : list string :=
-  let code := code_patterns (c_proj c) in
+  let code := code_patterns (eff_proj q c) in
+  let ig := p_ignore_file (eff_proj q c) in
   match selected q c with
   | LDoc KJson raw => code     (* repaired: the list of files read from the source covers .thailint.json *)
-  | LDoc KPy raw => if has q "repo_ignore_not_loaded[pyproject]" then code else pats raw
-  | LDoc KDash raw => if has q "repo_ignore_not_loaded[--config]" then code else pats raw
+  | LDoc KPy raw => if has q "repo_ignore_not_loaded[pyproject]" then code else ig ++ pats raw
+  | LDoc KDash raw => if has q "repo_ignore_not_loaded[--config]" then code else ig ++ pats raw
   | _ => code
   end.
 
@@ -467,7 +507,8 @@ Definition run (q : quirks) (c : case) : outcome :=
    - the configuration is the document of the carrier that wins by precedence
      (--config, then .thailint.yaml, then .thailint.json, then pyproject.toml [tool.thailint]);
      a missing / unsupported / unparsable --config file or an unparsable selected file is exit 2;
-   - the top-level `ignore` list of that document silences every linter on the matching file;
+   - the top-level `ignore` list of that document, and the patterns of .thailintignore, silence every linter on the
+     matching file; where the linted file lies below the project directory makes no difference;
    - the linter's section is the entry whose name equals the documented name up to hyphen/underscore
      (the later entry when a document spells it twice);
    - an option's value is the CLI threshold option if given, else the per-language sub-section's value
@@ -605,7 +646,7 @@ Definition spec (c : case) : outcome :=
   match spec_selected c with
   | LErr => Exit2
   | LDoc _ raw =>
-    if existsb (String.eqb (c_fname c)) (str_list (get "ignore" raw)) then Ran 0 else
+    if existsb (String.eqb (c_fname c)) (p_ignore_file (c_proj c) ++ str_list (get "ignore" raw)) then Ran 0 else
     let u := c_unit c in
     unit_outcome (doc_opts u) (doc_guards u) (unit_probes u) false false false true
                  (spec_res c (section_of u raw)) (spec_res_top c (section_of u raw)) (c_fname c) (c_metrics c)
